@@ -50,16 +50,22 @@ def validate_instance(ctx, label, d, q, amt, stats):
         if q.kind == "ref":
             stats["fields"] += 1
             gs = q.tables["scale"][var]
-            want = literal_value(u, amt)
-            ctx.ob("scale", ui, gs[0] == "num" and gs[2] == amt and gs[1] == want,
-                   "scale() is %s (%s), the literal %s denotes %s in the amount type" % (gs[1] if gs[0] == "num" else gs, gs[3] if gs[0] == "num" else "", u.scale_text, want), uw)
+            if u.scale is None:
+                # not spelled as a literal on this attribute (a form this checker does not know): the value is judged
+                # against the published definition by C07; here only its wiring into a constant of the amount type
+                ctx.ob("scale", ui, gs[0] == "num" and gs[2] == amt, "scale() is %s, not a constant of the amount type" % (gs,), uw)
+                ctx.extra.setdefault("scales_not_written_as_literals", []).append(ui)
+            else:
+                want = literal_value(u, amt)
+                ctx.ob("scale", ui, gs[0] == "num" and gs[2] == amt and gs[1] == want,
+                       "scale() is %s (%s), the literal %s denotes %s in the amount type" % (gs[1] if gs[0] == "num" else gs, gs[3] if gs[0] == "num" else "", u.scale_text, want), uw)
         # constant
         scope = q.path.rsplit("::", 1)[0] + "::"
         cn = D.upper_snake(u.ident)
         got = q.consts.get(scope + cn)
         stats["fields"] += 1
         ctx.ob("constant", ui, got is not None and got[0] == var, "constant %s%s is %s, expected unit %s" % (scope, cn, got and got[0], var), uw)
-    want_order = [D.upper_camel(u.ident) for u in d.expected_order()]
+    want_order = [D.upper_camel(u.ident) for u in d.expected_order(lambda u: (q.tables.get("scale", {}).get(D.upper_camel(u.ident)) or (None, None))[1])]
     stats["fields"] += 1
     ctx.ob("order", inst, q.variants_const == want_order, "VARIANTS %s, specified order %s" % (q.variants_const, want_order), where)
     if q.kind == "ref":
